@@ -144,7 +144,7 @@ impl UdpDgram {
         );
 
         // RFC 768: a computed checksum of zero is transmitted as all ones, zero means "none"
-        let csum = match ip_csum_fold(ip_phdr + udp_hdr + payload) {
+        let csum = match ip_csum_fold(ip_phdr.wrapping_add(udp_hdr).wrapping_add(payload)) {
             0 => 0xffff,
             csum => csum,
         };
